@@ -2,7 +2,7 @@
    ONLY statements closed by `exact`, with Print Assumptions beneath each.
    Model: Model/Computed.v (mesa_signal.py as repaired by fixes/C17-1..4). *)
 From Coq Require Import ZArith List Bool PeanoNat Lia.
-From Mesa Require Import Generated.Tables Model.Computed Proofs.ComputedProofs Proofs.ComputedBridge.
+From Mesa Require Import Generated.Tables Model.Computed Proofs.ComputedProofs Proofs.ComputedBridge Proofs.ComputedKill.
 Import ListNotations.
 Open Scope Z_scope.
 
@@ -69,6 +69,49 @@ Theorem C17_never_stale_unless_read_dead_owner_partial : forall prog nobs init p
   snd (read_top prog st' k) = den prog (alive st') (store st') k.
 Proof. exact never_stale_after_kill. Qed.
 Print Assumptions C17_never_stale_unless_read_dead_owner_partial.
+
+(* Owner collection, second step (round 4): the invariant RELATIVE TO THE HEALTHY COMPUTEDS survives collections.
+   GU U st: the clean-clauses and the per-computed invariant in its environment form RDe (parents = reads of the
+   last evaluation of the function alone, the Computables read being an arbitrary environment) hold for every
+   computed in U; U is closed downwards along `parents`; everything structural holds for all computeds; no owner
+   needs to be alive except those of U and of the remembered sources.  After ANY collection-free history and ANY
+   number of collections the invariant holds for U = the computeds that at none of these collections remembered -
+   directly or through the Computables they remember - a source of the collected owner; this covers computeds
+   that were DIRTY at the collection (their RDe holds under the new liveness map: the comparison they will run is
+   sound).  Still missing for the full statement: the evaluation chain (Computed.__call__) under GU, i.e. histories
+   that assign / read dirty computeds AFTER a collection (see reports/g17.md). *)
+Theorem C17_healthy_invariant_survives_collections : forall prog nobs init pre os,
+  no_kill pre = true ->
+  let st := final prog nobs (install prog (init_state init)) pre in
+  GU prog (U_kills prog (fun j => (j < length prog)%nat) st os) (kills st os).
+Proof. exact healthy_after_collections. Qed.
+Print Assumptions C17_healthy_invariant_survives_collections.
+
+(* ... hence after several collections every healthy clean computed is alive and is read exactly *)
+Theorem C17_never_stale_after_collections_partial : forall prog nobs init pre os k,
+  no_kill pre = true -> NoDup os ->
+  let st := final prog nobs (install prog (init_state init)) pre in
+  let st' := final prog nobs st (map Kill os) in
+  U_kills prog (fun j => (j < length prog)%nat) st os k -> dirty st' k = false ->
+  alive st' (cowner prog k) = true /\ snd (read_top prog st' k) = den prog (alive st') (store st') k.
+Proof. exact never_stale_after_collections. Qed.
+Print Assumptions C17_never_stale_after_collections_partial.
+
+(* the two lemmas the evaluation chain under GU will rest on: the environment form still determines the value,
+   and it survives the collection of an owner the evaluation did not read; a dirty cascade started at an
+   unhealthy computed leaves the dirty flags of the healthy ones alone *)
+Theorem C17_environment_form_determines_and_survives : forall prog,
+  (forall al j P v, RDe prog al j P v ->
+     forall sto', (forall s x, In (s, x) (flat P) -> dsrc prog al sto' s = x) ->
+     den prog al sto' j = v /\ (forall p, In p (flat P) <-> In p (reads_of prog al sto' j))) /\
+  (forall al o j P v, RDe prog al j P v -> owner_keyed (owner_of prog) P ->
+     (forall s x, In (s, x) (flat P) -> owner_of prog s <> o) ->
+     RDe prog (al_kill al o) j (pkill o P) v) /\
+  (forall (U : nat -> Prop) st s, closedU U st ->
+     (forall d, In d (subs st s) -> dirty st d = true \/ ~ U d) ->
+     forall i, U i -> dirty (notify prog st s) i = dirty st i).
+Proof. exact (fun prog => conj (RDe_det prog) (conj (RDe_kill prog) (notify_unhealthy prog))). Qed.
+Print Assumptions C17_environment_form_determines_and_survives.
 
 (* the invariant behind it holds in every reachable state, so the same is true of every read a
    function performs through a chain (ev_ok), not only of top-level reads *)
@@ -378,4 +421,21 @@ Example C17_example_rejected_then_read :
   let st := final prog [1%nat] (start ex_long) [Assign 0 0 1] in
   snd (step prog [1%nat] st (WriteInsideKeep [ARead 0 0; AWrite 0 0 5])) = [4; 1; 2; 1; 1; 1; 1; 1; 1; 1] /\
   firstn 3 (snd (step prog [1%nat] st (WriteInsideKeep [AWrite 0 0 5]))) = [4; 0; 0].
+Proof. vm_compute. repeat split. Qed.
+
+(* three owners; c0 = A.x + 1, c1 = B.x + c0, c2 = C.x + c0, c3 = c0 + c0; collect B then C: c0 and c3 stay healthy
+   (and exact), c1 and c2 - which read the collected owners - do not *)
+Definition ex_kill2 : case :=
+  {| c_init := [[1]; [7]; [3]];
+     c_comps := [mkdef 0 (Add (Obs 0 0) (Const 1)); mkdef 0 (Add (Obs 1 0) (Comp 0)); mkdef 0 (Add (Obs 2 0) (Comp 0));
+                 mkdef 0 (Add (Comp 0) (Comp 0))];
+     c_ops := [] |}.
+Example C17_example_collections :
+  let prog := c_comps ex_kill2 in
+  let st := final prog [1%nat; 1%nat; 1%nat] (start ex_kill2) [Assign 0 0 4; Read 1; Read 2; Read 3] in
+  let st' := final prog [1%nat; 1%nat; 1%nat] st (map Kill [1; 2]) in
+  indepf prog 4 st 1 3 = true /\ indepf prog 4 (kill_state st 1) 2 3 = true /\
+  indepf prog 4 st 1 1 = false /\ indepf prog 4 (kill_state st 1) 2 2 = false /\
+  dirty st' 3%nat = false /\ snd (read_top prog st' 3) = 10 /\ den prog (alive st') (store st') 3 = 10 /\
+  snd (read_top prog st' 1) = 12 /\ den prog (alive st') (store st') 1 = 5.
 Proof. vm_compute. repeat split. Qed.
